@@ -82,36 +82,47 @@ Proof. unfold b64u_encode. destruct r as [|x [|y r]]; cbn [b64_enc map]; eexists
 Lemma legacy_text_prefix t : exists rest, b64s_encode (101 :: 74 :: t) = 90 :: 85 :: rest.
 Proof. unfold b64s_encode. destruct t as [|x r]; cbn [b64_enc map]; eexists; reflexivity. Qed.
 
+(* ---------- validity is kept by the set operations ---------- *)
+Lemma valid_ins i s : i < 4294967296 -> valid_set s -> valid_set (ins i s).
+Proof. intros Hi [S F]. split; [apply sorted_ins; exact S|]. apply Forall_forall. intros x Hx. apply in_ins in Hx. rewrite Forall_forall in F. destruct Hx as [->|Hx]; [exact Hi|apply F; exact Hx]. Qed.
+Lemma valid_del i s : valid_set s -> valid_set (del i s).
+Proof. intros [S F]. split; [apply sorted_del; exact S|]. apply Forall_forall. intros x Hx. apply (in_del x i s S) in Hx. rewrite Forall_forall in F. apply F. apply Hx. Qed.
+Lemma valid_revoke_all idxs : forall s, Forall (fun x => x < 4294967296) idxs -> valid_set s -> valid_set (revoke_all idxs s).
+Proof. unfold revoke_all. induction idxs as [|i r IH]; intros s Fi V; cbn [fold_left]; [exact V|]. inversion Fi as [|? ? Hi Fr]; subst. apply IH; [exact Fr|apply valid_ins; assumption]. Qed.
+Lemma valid_unrevoke_all idxs : forall s, valid_set s -> valid_set (unrevoke_all idxs s).
+Proof. unfold unrevoke_all. induction idxs as [|i r IH]; intros s V; cbn [fold_left]; [exact V|]. apply IH. apply valid_del. exact V. Qed.
+
 Section CodecProofs.
 Variable comp : list N -> list N.
 Variable decomp : list N -> option (list N).
-Hypothesis Hdc : forall s, decomp (comp s) = Some s.                      (* flate2 + roaring round trip *)
-Hypothesis Hzl : forall s, exists r, comp s = 120 :: 156 :: r.           (* zlib header of Compression::default() *)
-Hypothesis Hby : forall s, Forall byte_ok (comp s).
+(* the codec (zlib over the roaring bytes) is asked to round-trip the values a bitmap can hold, and only those *)
+Hypothesis Hdc : forall s, valid_set s -> decomp (comp s) = Some s.
+Hypothesis Hzl : forall s, valid_set s -> exists r, comp s = 120 :: 156 :: r.           (* zlib header of Compression::default() *)
+Hypothesis Hby : forall s, valid_set s -> Forall byte_ok (comp s).
 
-Lemma ser64_not_legacy s : legacy_fixed (ser64 comp s) = false.
-Proof. unfold legacy_fixed, ser64. destruct (Hzl s) as [r ->]. destruct (zlib_text_prefix r) as [c [rest ->]]. reflexivity. Qed.
-Theorem deser_ser s : deser64 decomp legacy_fixed (ser64 comp s) = Some s.
-Proof. unfold deser64. rewrite ser64_not_legacy. unfold ser64. rewrite (b64u_decode_encode _ (Hby s)). apply Hdc. Qed.
-Theorem service_roundtrip id s : try_from_service decomp legacy_fixed (to_service comp id s) = Some s.
-Proof. unfold try_from_service, to_service, to_endpoint; cbn [bs_type_ok bs_ep negb]. rewrite strip_prefix_app. apply deser_ser. Qed.
+Lemma ser64_not_legacy s : valid_set s -> legacy_fixed (ser64 comp s) = false.
+Proof. intros V. unfold legacy_fixed, ser64. destruct (Hzl s V) as [r ->]. destruct (zlib_text_prefix r) as [c [rest ->]]. reflexivity. Qed.
+Theorem deser_ser s : valid_set s -> deser64 decomp legacy_fixed (ser64 comp s) = Some s.
+Proof. intros V. unfold deser64. rewrite (ser64_not_legacy s V). unfold ser64. rewrite (b64u_decode_encode _ (Hby s V)). apply Hdc. exact V. Qed.
+Theorem service_roundtrip id s : valid_set s -> try_from_service decomp legacy_fixed (to_service comp id s) = Some s.
+Proof. intros V. unfold try_from_service, to_service, to_endpoint; cbn [bs_type_ok bs_ep negb]. rewrite strip_prefix_app. apply deser_ser. exact V. Qed.
 
 (* every character of a base64url text is ASCII *)
 Lemma b64u_char_ascii s : s < 64 -> b64u_char s < 128.
 Proof. intros H. unfold b64u_char. destruct (s <? 26) eqn:A; [apply N.ltb_lt in A; lia|]. destruct (s <? 52) eqn:B; [apply N.ltb_lt in B; lia|].
   destruct (s <? 62) eqn:C; [apply N.ltb_lt in C; lia|]. destruct (s =? 62); lia. Qed.
-Lemma ser64_ascii s : Forall (fun c => c < 128) (ser64 comp s).
-Proof. unfold ser64, b64u_encode. pose proof (enc_sx_ok _ (Hby s)) as H. induction H as [|x r Hx Hr IH]; cbn [map]; constructor; [apply b64u_char_ascii; exact Hx|exact IH]. Qed.
+Lemma ser64_ascii s : valid_set s -> Forall (fun c => c < 128) (ser64 comp s).
+Proof. intros V. unfold ser64, b64u_encode. pose proof (enc_sx_ok _ (Hby s V)) as H. induction H as [|x r Hx Hr IH]; cbn [map]; constructor; [apply b64u_char_ascii; exact Hx|exact IH]. Qed.
 (* the legacy double-encoded form still decodes *)
-Theorem legacy_decodes s : deser64 decomp legacy_fixed (b64s_encode (ser64 comp s)) = Some s.
-Proof. unfold deser64.
+Theorem legacy_decodes s : valid_set s -> deser64 decomp legacy_fixed (b64s_encode (ser64 comp s)) = Some s.
+Proof. intros V. unfold deser64.
   assert (L : legacy_fixed (b64s_encode (ser64 comp s)) = true).
-  { unfold ser64. destruct (Hzl s) as [r ->]. destruct (zlib_text_prefix r) as [c [rest ->]]. destruct (legacy_text_prefix (c :: rest)) as [rest' ->]. reflexivity. }
-  rewrite L. pose proof (ser64_ascii s) as Ha.
+  { unfold ser64. destruct (Hzl s V) as [r ->]. destruct (zlib_text_prefix r) as [c [rest ->]]. destruct (legacy_text_prefix (c :: rest)) as [rest' ->]. reflexivity. }
+  rewrite L. pose proof (ser64_ascii s V) as Ha.
   assert (Hb : Forall byte_ok (ser64 comp s)) by (apply (Forall_impl byte_ok) with (2 := Ha); intros c Hc; unfold byte_ok; lia).
   rewrite (b64s_decode_encode _ Hb).
   assert (Hf : forallb (fun c => c <? 128) (ser64 comp s) = true) by (apply forallb_forall; rewrite Forall_forall in Ha; intros c Hc; apply N.ltb_lt; apply Ha; exact Hc).
-  rewrite Hf. unfold ser64. rewrite (b64u_decode_encode _ (Hby s)). apply Hdc. Qed.
+  rewrite Hf. unfold ser64. rewrite (b64u_decode_encode _ (Hby s V)). apply Hdc. exact V. Qed.
 
 (* ---------- revoking through the document ---------- *)
 Lemma find_replace_first d q ep sv : find (fun sv => qmatches q (bs_id sv)) d = Some sv ->
@@ -120,12 +131,18 @@ Proof. induction d as [|x r IH]; cbn [find replace_first]; [discriminate|]. dest
   - intros H. injection H as <-. cbn [find bs_id]. rewrite E. reflexivity.
   - intros H. cbn [find]. rewrite E. apply IH. exact H. Qed.
 
-Theorem update_spec d q f d' : update_bitmap comp decomp legacy_fixed d q f = Some d' ->
+Hypothesis Hvalid : forall z s, decomp z = Some s -> valid_set s.       (* the decoder yields strictly increasing 32-bit indices *)
+Lemma resolve_valid d q bm : resolve_bitmap decomp legacy_fixed d q = Some bm -> valid_set bm.
+Proof. unfold resolve_bitmap, try_from_service, deser64. destruct (find _ d) as [sv|]; [|discriminate]. destruct (bs_type_ok sv); [|discriminate]. cbn [negb].
+  destruct (bs_ep sv) as [t|]; [|discriminate]. destruct (strip_prefix DATA_PREFIX t) as [enc|]; [|discriminate].
+  destruct (if legacy_fixed enc then _ else _) as [t'|]; [|discriminate]. destruct (b64u_decode t') as [z|]; [|discriminate]. apply Hvalid. Qed.
+Theorem update_spec d q f d' : (forall bm, valid_set bm -> valid_set (f bm)) -> update_bitmap comp decomp legacy_fixed d q f = Some d' ->
   exists bm, resolve_bitmap decomp legacy_fixed d q = Some bm /\ resolve_bitmap decomp legacy_fixed d' q = Some (f bm) /\ map bs_id d' = map bs_id d.
-Proof. unfold update_bitmap. destruct (resolve_bitmap decomp legacy_fixed d q) as [bm|] eqn:E; [|discriminate]. intros H. injection H as <-.
+Proof. intros Hf. unfold update_bitmap. destruct (resolve_bitmap decomp legacy_fixed d q) as [bm|] eqn:E; [|discriminate]. intros H. injection H as <-.
+  pose proof (Hf bm (resolve_valid d q bm E)) as Vf.
   exists bm. split; [reflexivity|]. unfold resolve_bitmap in *. destruct (find (fun sv => qmatches q (bs_id sv)) d) as [sv|] eqn:F; [|discriminate E].
   rewrite (find_replace_first d q _ sv F). split.
-  - unfold try_from_service in *. cbn [bs_type_ok bs_ep]. destruct (bs_type_ok sv); [|discriminate E]. cbn [negb]. unfold to_endpoint. rewrite strip_prefix_app. apply deser_ser.
+  - unfold try_from_service in *. cbn [bs_type_ok bs_ep]. destruct (bs_type_ok sv); [|discriminate E]. cbn [negb]. unfold to_endpoint. rewrite strip_prefix_app. apply deser_ser. exact Vf.
   - clear. induction d as [|x r IH]; cbn [replace_first map]; [reflexivity|]. destruct (qmatches q (bs_id x)); cbn [map bs_id]; [reflexivity|]. f_equal. exact IH. Qed.
 (* services that the query does not select are untouched *)
 Theorem update_frame d q f d' : update_bitmap comp decomp legacy_fixed d q f = Some d' ->
@@ -134,22 +151,17 @@ Proof. unfold update_bitmap. destruct (resolve_bitmap decomp legacy_fixed d q) a
   intros sv Hin Hq. induction d as [|x r IH]; [destruct Hin|]. cbn [replace_first]. destruct Hin as [->|Hin].
   - rewrite Hq. left. reflexivity.
   - destruct (qmatches q (bs_id x)); [right; exact Hin|right; apply IH; exact Hin]. Qed.
-Hypothesis Hsorted : forall z s, decomp z = Some s -> sorted s = true.       (* roaring yields the indices in increasing order *)
-Lemma resolve_sorted d q bm : resolve_bitmap decomp legacy_fixed d q = Some bm -> sorted bm = true.
-Proof. unfold resolve_bitmap, try_from_service, deser64. destruct (find _ d) as [sv|]; [|discriminate]. destruct (bs_type_ok sv); [|discriminate]. cbn [negb].
-  destruct (bs_ep sv) as [t|]; [|discriminate]. destruct (strip_prefix DATA_PREFIX t) as [enc|]; [|discriminate].
-  destruct (if legacy_fixed enc then _ else _) as [t'|]; [|discriminate]. destruct (b64u_decode t') as [z|]; [|discriminate]. apply Hsorted. Qed.
-(* revoking / un-revoking changes membership of exactly the requested indices *)
-Theorem revoke_exact d q idxs d' : revoke_credentials comp decomp legacy_fixed d q idxs = Some d' ->
+(* revoking / un-revoking changes membership of exactly the requested indices (u32 indices, as the API takes them) *)
+Theorem revoke_exact d q idxs d' : Forall (fun x => x < 4294967296) idxs -> revoke_credentials comp decomp legacy_fixed d q idxs = Some d' ->
   exists bm bm', resolve_bitmap decomp legacy_fixed d q = Some bm /\ resolve_bitmap decomp legacy_fixed d' q = Some bm'
     /\ forall x, In x bm' <-> In x idxs \/ In x bm.
-Proof. intros H. destruct (update_spec d q _ d' H) as [bm [A [B _]]]. exists bm, (revoke_all idxs bm). split; [exact A|]. split; [exact B|].
-  apply revoke_all_spec. apply (resolve_sorted d q bm A). Qed.
+Proof. intros Fi H. destruct (update_spec d q _ d' (fun bm V => valid_revoke_all idxs bm Fi V) H) as [bm [A [B _]]]. exists bm, (revoke_all idxs bm). split; [exact A|]. split; [exact B|].
+  apply revoke_all_spec. apply (resolve_valid d q bm A). Qed.
 Theorem unrevoke_exact d q idxs d' : unrevoke_credentials comp decomp legacy_fixed d q idxs = Some d' ->
   exists bm bm', resolve_bitmap decomp legacy_fixed d q = Some bm /\ resolve_bitmap decomp legacy_fixed d' q = Some bm'
     /\ forall x, In x bm' <-> ~ In x idxs /\ In x bm.
-Proof. intros H. destruct (update_spec d q _ d' H) as [bm [A [B _]]]. exists bm, (unrevoke_all idxs bm). split; [exact A|]. split; [exact B|].
-  apply unrevoke_all_spec. apply (resolve_sorted d q bm A). Qed.
+Proof. intros H. destruct (update_spec d q _ d' (fun bm V => valid_unrevoke_all idxs bm V) H) as [bm [A [B _]]]. exists bm, (unrevoke_all idxs bm). split; [exact A|]. split; [exact B|].
+  apply unrevoke_all_spec. apply (resolve_valid d q bm A). Qed.
 End CodecProofs.
 
 (* ---------- the pinned tree took every text not starting with "eJy" for the legacy form ---------- *)
